@@ -493,7 +493,8 @@ func tlcValidate(env hres.Env, cov map[string]any) {
 		// (the call assigns all of its variables again): such label bodies are not PlusCal
 		for i, q := range p.Procs {
 			for _, l := range q.Labels {
-				if (l.T.K == "call" || l.T.K == "tail") && l.T.P == i {
+				// (a return assigns all of the procedure's variables too, so `v := ..; return` is not PlusCal either)
+				if ((l.T.K == "call" || l.T.K == "tail") && l.T.P == i) || l.T.K == "ret" || l.T.K == "tail" {
 					for _, a := range l.As {
 						if isRef, _ := p.hasVar(i, a.T); !isRef {
 							needsLabel++
